@@ -455,8 +455,13 @@ def rule_class_rendering(rep: Report, repo: Repo, rule: str) -> None:
                 if nm and is_const(nm[0]) and str(nm[0][1]).startswith("type "):
                     idx_n = nm[1][2] if len(nm) > 1 and nm[1][0] == "sub" else None
                     idx_v = val_t[2] if val_t[0] == "sub" else None
-                    ok = nm[1][0] == "sub" and nm[1][1] == S("params") and val_t[0] == "sub" and val_t[1] == S("param_types") \
+                    ok = len(nm) > 1 and nm[1][0] == "sub" and nm[1][1] == S("params") and val_t[0] == "sub" and val_t[1] == S("param_types") \
                         and idx_n == idx_v and idx_n is not None and idx_n[0] == "elem"
+                    if not ok and len(nm) > 1 and nm[1][0] == "elem" and val_t[0] == "elem" and nm[1][1] == val_t[1]:
+                        # for name, type in zip(self.params, self.param_types)
+                        lp = o.state.loops.get(nm[1][1])
+                        zipped = lp is not None and lp["iter"] == ("call", glob("zip"), (S("params"), S("param_types")), ())
+                        ok = zipped and nm[1][2] == 0 and val_t[2] == 1
                     rep.check(ok, rule, where(c), f"field({show(name_t)[:40]}, {show(val_t)[:40]})",
                               "a parameter name is paired with a type at another position", witness="cpp_member(f C int str) with params a b")
     # Attribute
